@@ -74,6 +74,8 @@ theorem stepB_some {t : IntTy} {π : Policy} (w : t.WF π) (hl : t.LargerOK) (hc
     (r : Regs) (hr : ∀ j, t.inRange (r j)) (i : BInstr) (r' : Regs) (h : stepB t π dir r i = some r') :
     stepU r i = some r' ∧ ∀ j, t.inRange (r' j) := by
   have fin : ∀ j, t.finite π (r j) := fun j => finite_of_inRange hn hi (hr j)
+  have hru : dir.roundUp = false := by cases dir <;> simp_all [Dir.roundUp, Dir.notRequested]
+  have hrd : dir.roundDown = false := by cases dir <;> simp_all [Dir.roundDown, Dir.notRequested]
   rw [stepU_eq]
   unfold stepB at h
   by_cases hd : i.defined r = true
@@ -111,13 +113,13 @@ theorem stepB_some {t : IntTy} {π : Policy} (w : t.WF π) (hl : t.LargerOK) (hc
           exact tri_nothrow (add_tri w hl hco dir (hr d) (fin d) (IntTy.finite_inRange hf)) hnt
         · rw [e] at hnt
           simp only [resultOverflow_setNeg, show ((-1 : Int) == 0) = false from rfl,
-            show ((-1 : Int) == -1) = true from rfl, if_true, Bool.false_eq_true, if_false] at hnt
+            show ((-1 : Int) == -1) = true from rfl, if_true, Bool.false_eq_true, if_false, hru, hrd, Bool.false_and] at hnt
           split at hnt
           · rw [throws_setNeg] at hnt; cases hnt
           · simp [assignNan, throws, V_UNKNOWN_NEG_OVERFLOW] at hnt
         · rw [e] at hnt
           simp only [resultOverflow_setPos, show ((1 : Int) == 0) = false from rfl,
-            show ((1 : Int) == -1) = false from rfl, Bool.false_eq_true, if_false] at hnt
+            show ((1 : Int) == -1) = false from rfl, Bool.false_eq_true, if_false, hru, hrd, Bool.false_and] at hnt
           split at hnt
           · rw [throws_setPos] at hnt; cases hnt
           · simp [assignNan, throws, V_UNKNOWN_POS_OVERFLOW] at hnt
@@ -133,13 +135,13 @@ theorem stepB_some {t : IntTy} {π : Policy} (w : t.WF π) (hl : t.LargerOK) (hc
           exact tri_nothrow (sub_tri w hl hco dir (hr d) (fin d) (IntTy.finite_inRange hf)) hnt
         · rw [e] at hnt
           simp only [resultOverflow_setNeg, show ((-1 : Int) == 0) = false from rfl,
-            show ((-1 : Int) == -1) = true from rfl, if_true, Bool.false_eq_true, if_false] at hnt
+            show ((-1 : Int) == -1) = true from rfl, if_true, Bool.false_eq_true, if_false, hru, hrd, Bool.false_and] at hnt
           split at hnt
           · rw [throws_setPos] at hnt; cases hnt
           · simp [assignNan, throws, V_UNKNOWN_NEG_OVERFLOW] at hnt
         · rw [e] at hnt
           simp only [resultOverflow_setPos, show ((1 : Int) == 0) = false from rfl,
-            show ((1 : Int) == -1) = false from rfl, Bool.false_eq_true, if_false] at hnt
+            show ((1 : Int) == -1) = false from rfl, Bool.false_eq_true, if_false, hru, hrd, Bool.false_and] at hnt
           split at hnt
           · rw [throws_setNeg] at hnt; cases hnt
           · simp [assignNan, throws, V_UNKNOWN_POS_OVERFLOW] at hnt
